@@ -12,7 +12,7 @@ CLAIMS = {
   "DESIGN.md section 5, C02"),
  "C08": ("proof",
   "LimitPlan and FinalLimitPlan (Init, Next, Batch) are proved, for every offset, count, result size, symbolic batch size and every split of the child's output into batches, to return exactly the next rows Start+current.. of the child's ghost output sequence, to stop at Count or at the child's end, and to maintain the object invariant that makes the per-call statement compose over calls.",
-  TRUST + "The child is represented by the Plan/FinalPlan interface contract (ghost sequence, any batch split). Composition over calls is an induction argued on paper with the machine-checked object invariant as hypothesis. AggregatePlan's limit half, parseLimit and the plan wiring are not yet under contract.",
+  TRUST + "The child is represented by the Plan/FinalPlan interface contract (ghost sequence, any batch split). Composition over calls is an induction argued on paper with the machine-checked object invariant as hypothesis. The limit half of AggregatePlan.Next/Batch is proved over assumed thin contracts of next()/batch(); parseLimit and buildFinalPlan wiring are not yet under contract.",
   "DESIGN.md section 5, C08"),
  "C11": ("proof",
   "DeletePlan (execute, Init, Next, Batch) is proved to drain its child's ghost output sequence, to hand exactly the keys of each batch - and nothing else - to BatchDelete, to delete as many keys as rows were drained, to issue no Put/BatchPut/Delete, and to execute once.",
@@ -47,6 +47,10 @@ CLAIMS = {
   "Order plan: comparators return the sign of the documented order (numeric, byte-wise, false<true, negated for DESC); Less is exactly the lexicographic order over the ORDER BY keys; the heap adapter is exact; every child row is pushed exactly once and popped exactly once (ghost heap size), Next/Batch stop exactly at the end; a lone `order by key asc` is the only elision.",
   TRUST + "Sortedness and permutation of the output additionally rest on T-STD for container/heap (Pop returns a minimum by Less). Mixed-kind columns compare as unordered. The elision relies on C01's scan order.",
   "DESIGN.md section 5, C07"),
+ "C09": ("proof",
+  "Accumulators only: count, sum, avg, min, max are proved to be left folds in scan order (Update = one step on the converted argument value, unchanged on evaluation failure; Complete = the documented read-out; Clone = fresh initial state).",
+  TRUST + "The grouping (prepare, group keys, row construction and rendering), group_concat, json_arrayagg and quantile are NOT yet under contract; the known key-collision defect (plain concatenation of group values) is neither repaired nor detected yet. Floats uninterpreted.",
+  "DESIGN.md section 5, C09"),
 }
 
 NA_PENDING = "not yet claimed in this session: the contracts for this property are still being written (see DESIGN.md section 5 for the plan)"
